@@ -40,12 +40,44 @@ def split_goal(goal, hyps):
     return [([], goal)]
 
 
-def flatten_hyp(h, qf, univ, guard=None):
+def polarize(t, positive=True, scope=0):
+    """remove quantifiers that are existential in effect by skolem constants:
+    `exists` in positive position, `forall` in negative position (antecedent of implies / under not).
+    Only outside the scope of a universal quantifier (a constant would otherwise have to be a Skolem function)."""
+    k = t[0]
+    if k == 'atom':
+        return t
+    if k in ('and', 'or'):
+        return (k, [polarize(x, positive, scope) for x in t[1]])
+    if k == 'not':
+        return ('not', polarize(t[1], not positive, scope))
+    if k == 'implies':
+        return ('implies', polarize(t[1], not positive, scope), polarize(t[2], positive, scope))
+    if k in ('forall', 'exists'):
+        universal = (k == 'forall') == positive
+        if universal:
+            if not positive:
+                raise NotImplementedError('existential quantifier in negative position')
+            return ('forall', t[1], polarize(t[2], positive, scope + 1))
+        if scope:
+            raise NotImplementedError('existential effect inside a universal quantifier (needs a Skolem function)')
+        pairs = [(v, fresh(str(v).rstrip('?') + '_wit', v.sort())) for v in t[1]]
+        return f_subst(polarize(t[2], positive, scope), pairs)
+    raise ValueError(k)
+
+
+def flatten_hyp(h, qf, univ, guard=None, _pol=False):
     """hypothesis tree -> qf list of z3 Bools, univ list of (vars, qf body tree)"""
+    if not _pol:
+        h = polarize(h, True)
+    return _flatten_hyp(h, qf, univ, guard)
+
+
+def _flatten_hyp(h, qf, univ, guard=None):
     k = h[0]
     if k == 'and':
         for x in h[1]:
-            flatten_hyp(x, qf, univ, guard)
+            _flatten_hyp(x, qf, univ, guard)
         return
     if k == 'forall':
         body = h[2]
@@ -68,11 +100,11 @@ def flatten_hyp(h, qf, univ, guard=None):
             # split conjunction bodies containing quantifiers
             if body[0] == 'implies' and body[2][0] == 'and':
                 for part in body[2][1]:
-                    flatten_hyp(('forall', vars_, ('implies', body[1], part)), qf, univ, None)
+                    _flatten_hyp(('forall', vars_, ('implies', body[1], part)), qf, univ, None)
                 return
             if body[0] == 'and':
                 for part in body[1]:
-                    flatten_hyp(('forall', vars_, part), qf, univ, None)
+                    _flatten_hyp(('forall', vars_, part), qf, univ, None)
                 return
             raise NotImplementedError('quantifier alternation in a hypothesis')
         # rename bound variables apart
@@ -83,11 +115,11 @@ def flatten_hyp(h, qf, univ, guard=None):
         g = h[1] if guard is None else ('and', [guard, h[1]])
         if not is_qf(h[1]):
             raise NotImplementedError('quantified antecedent in a hypothesis')
-        flatten_hyp(h[2], qf, univ, g)
+        _flatten_hyp(h[2], qf, univ, g)
         return
     if k == 'exists':
         pairs = [(v, fresh(str(v).rstrip('?') + '_ex', v.sort())) for v in h[1]]
-        flatten_hyp(f_subst(h[2], pairs), qf, univ, guard)
+        _flatten_hyp(f_subst(h[2], pairs), qf, univ, guard)
         return
     if not is_qf(h):
         raise NotImplementedError('quantifier under or/not in a hypothesis')
@@ -235,6 +267,8 @@ def instantiate(qf, univ, goal, rounds=2, extra_terms=(), budget=60000):
                                 if src is None and key is None:
                                     src = terms
                                 for t in (src or {}).values():
+                                    if argpos is not None:
+                                        t = z3.simplify(t - argpos[1] if argpos[0] == 'minus' else t + argpos[1])
                                     cands[t.get_id()] = t
                             else:
                                 for app in usage['apps'].get(key, []):
@@ -344,10 +378,23 @@ def var_patterns(vars_, body):
         kd = x.decl().kind()
         if kd == z3.Z3_OP_SELECT:
             idx = x.arg(1)
+            b = _base_array(x.arg(0))
+            key = b.get_id() if (z3.is_const(b) and b.get_id() not in ids) else None
             if idx.get_id() in ids:
-                b = _base_array(x.arg(0))
-                key = b.get_id() if (z3.is_const(b) and b.get_id() not in ids) else None
-                pats.setdefault(idx.get_id(), []).append(('sel', key, 1))
+                pats.setdefault(idx.get_id(), []).append(('sel', key, None))
+            elif z3.is_app(idx) and idx.decl().kind() in (z3.Z3_OP_ADD, z3.Z3_OP_SUB):
+                # index of the form  v + c / c + v / v - c  with c free of bound variables: candidates t - c / t + c
+                ch = idx.children()
+                vs = [a for a in ch if a.get_id() in ids]
+                rest = [a for a in ch if a.get_id() not in ids]
+                if len(vs) == 1 and not any(_mentions(a, ids) for a in rest) and \
+                        (idx.decl().kind() == z3.Z3_OP_ADD or ch[0].get_id() == vs[0].get_id()):
+                    if idx.decl().kind() == z3.Z3_OP_ADD:
+                        off = rest[0] if len(rest) == 1 else z3.Sum(*rest)
+                        pats.setdefault(vs[0].get_id(), []).append(('sel', key, ('minus', off)))
+                    else:
+                        off = rest[0] if len(rest) == 1 else z3.Sum(*rest)
+                        pats.setdefault(vs[0].get_id(), []).append(('sel', key, ('plus', off)))
         elif kd == z3.Z3_OP_UNINTERPRETED and x.num_args() > 0:
             for k, a in enumerate(x.children()):
                 if a.get_id() in ids:
